@@ -146,7 +146,7 @@ Proof.
                exists st2', skipped st2 = Some (st2', snd r) /\ wagree Q (fst r) st2').
   { intros r E. inversion E; subst. eexists. split; [reflexivity|exact Ag]. }
   destruct o as [|dst t' x|dst x|dst t' tensor sh data|dst tensor sh data|dst assign code c a|dst mode code a b|dst a b
-                 |a elem|t'|a|t']; cbn [step next dst_of reads forallb] in *.
+                 |a elem|t'|a|t'|dst rs]; cbn [step next dst_of reads forallb] in *.
   - inversion Hs; subst. eexists. split; [reflexivity|]. destruct Ag as [T G].
     split; [cbn [tapes]; rewrite T; reflexivity|exact G].
   - destruct (fo_wagree Q st1 st2 dst _ _ _ _ Ag Hs) as (st2' & E2 & Ag').
@@ -234,6 +234,17 @@ Proof.
     destruct (reset_all_rel t' (regs st1) (regs st2) Q tp G Hx) as (tp' & o1 & o2 & idx & E1 & E2 & Hn).
     rewrite E1 in Hs. rewrite E2. inversion Hs; subst. eexists. split; [reflexivity|].
     split; [cbn [tapes]; rewrite T; reflexivity|exact Hn].
+  - rewrite (get_recs_agree st1 st2 Q (fun r Hq => wagree_get Q st1 st2 r Ag Hq) rs Hr).
+    destruct (get_recs st1 rs) as [xs|];
+      [|destruct (SK _ Hs) as (st2' & E2 & Ag'); exists st2'; split; [exact E2|]; inversion Hs; subst; exact Ag'].
+    unfold sum_on in *. destruct (sum_hist xs) as [t0|].
+    + rewrite (wagree_tape Q st1 st2 t0 Ag). destruct (tape_of st1 t0) as [tp|]; [|discriminate].
+      destruct (sum_fold ops tp (rec_constant (nzero ops)) xs) as [tp' [z|e|]]; cbn [fst snd sum_finish] in *;
+        inversion Hs; subst; (eexists; split; [reflexivity|]); try (apply wagree_set_tape; exact Ag).
+      apply wagree_put, wagree_set_tape, Ag.
+    + destruct (sum_fold ops [] (rec_constant (nzero ops)) xs) as [tp' [z|e|]]; cbn [fst snd sum_finish] in *;
+        inversion Hs; subst; (eexists; split; [reflexivity|]); try exact Ag.
+      apply wagree_put, Ag.
 Qed.
 
 Lemma wrun_agree : forall script Q (st1 st2 : state) st1' vs, wagree Q st1 st2 -> wide_run Q st1 script ->
@@ -422,7 +433,7 @@ Lemma derivs_only (st : state) o st' d : step ops st o = Some (st', Ok (VDerivs 
   exists a e, o = TDerivs a e.
 Proof.
   destruct o as [|dst t' x|dst x|dst t' tensor sh data|dst tensor sh data|dst assign code c a|dst mode code a b|dst a b
-                 |a elem|t'|a|t']; cbn [step]; unfold skipped; intros H;
+                 |a elem|t'|a|t'|dst rs]; cbn [step]; unfold skipped, sum_finish; intros H;
     try (do 2 eexists; reflexivity); exfalso;
     repeat first
       [ discriminate H
@@ -450,6 +461,51 @@ Proof.
       exists a, e, st, [], t, tp. cbn [nth_error firstn tm_run]. auto.
     + destruct (IH _ _ _ Er k d Hk) as (a & e & stk & vsk & t & tp & H0 & H1 & H2 & H3 & H4).
       exists a, e, stk, (v :: vsk), t, tp. cbn [nth_error firstn tm_run]. rewrite Es, H1. auto.
+Qed.
+
+(* ------------------------------------------------------------------ impl Sum for Record as a machine operation
+   (TSum; semantics in Model/TapeMachine.v, basic lemmas in C15P, next_unused / frame cases in
+   C15Q and above).  A COMPLETED sum is the container model's fold `each_sum` from
+   Record::zero() - the fold that Proofs/C04S.v proves equal to C04's Sum node - run through the
+   ordinary finish / on_tape path on the list of the first non-constant record. *)
+Theorem sum_ok_is_each_sum (st : state) dst rs xs st' z : get_recs st rs = Some xs ->
+  step ops st (TSum dst rs) = Some (st', Ok (VRec z)) ->
+  finish st dst (on_tape st (sum_hist xs)
+                   (fun tp => as_rec (each_sum ops tp (rec_constant (nzero ops)) xs))) = Some (st', Ok (VRec z)).
+Proof.
+  intros Eg. cbn [step]. rewrite Eg. unfold sum_on, on_tape. destruct (sum_hist xs) as [t|].
+  - destruct (tape_of st t) as [tp|]; [|discriminate].
+    destruct (sum_fold ops tp (rec_constant (nzero ops)) xs) as [tp' [z0|e|]] eqn:Ef; cbn [fst snd sum_finish];
+      intros E; inversion E; subst.
+    apply sum_fold_ok in Ef. rewrite Ef. reflexivity.
+  - destruct (sum_fold ops [] (rec_constant (nzero ops)) xs) as [tp' [z0|e|]] eqn:Ef; cbn [fst snd sum_finish];
+      intros E; inversion E; subst.
+    apply sum_fold_ok in Ef. rewrite Ef. reflexivity.
+Qed.
+
+Lemma sum_ok_recs (st : state) dst rs st' w : step ops st (TSum dst rs) = Some (st', Ok w) ->
+  exists xs, get_recs st rs = Some xs.
+Proof. cbn [step]. destruct (get_recs st rs) as [xs|]; [eauto|]. intros E; inversion E. Qed.
+
+(* the derivative set of a Sum result, taken right after the sum: one entry per entry of the
+   list INCLUDING everything the sum appended, and the result is its last entry *)
+Theorem sum_derivs_length (st : state) dst rs st1 z st2 el d :
+  step ops st (TSum dst rs) = Some (st1, Ok (VRec z)) ->
+  step ops st1 (TDerivs dst el) = Some (st2, Ok (VDerivs (Some d))) ->
+  exists t tp pre en, r_hist z = Some t /\ tape_of st t = Some tp /\ tape_of st1 t = Some (tp ++ pre ++ [en]) /\
+    length d = length tp + length pre + 1 /\ r_idx z + 1 = length d /\ length pre < length rs.
+Proof.
+  intros H1 H2. destruct (sum_ok_recs _ _ _ _ _ H1) as [xs Eg].
+  destruct (sum_step_spec ops st dst rs xs st1 _ Eg H1) as (s1 & _ & _ & _ & Hon & _ & Hv).
+  destruct Hv as [[Q _]|(z0 & Q & -> & Hzh)]; [discriminate Q|]. inversion Q; subst z0.
+  destruct (derivs_length ops _ _ _ _ _ H2) as (t & tp1 & Ho & Ht1 & Hl).
+  rewrite get_put, Nat.eqb_refl in Ho. cbn [obj_hist] in Ho. rewrite Ho in Hzh. symmetry in Hzh.
+  destruct (tape_of st t) as [tp|] eqn:Et.
+  - destruct (Hon t tp Hzh Et) as (suf & T1 & Ls & Hz). destruct (Hz z eq_refl) as (_ & pre & en & -> & Hi).
+    rewrite tape_of_put, T1 in Ht1. inversion Ht1; subst tp1.
+    exists t, tp, pre, en. split; [exact Ho|]. split; [exact Et|]. split; [rewrite tape_of_put; exact T1|].
+    rewrite !app_length in *. cbn [length] in *. repeat split; lia.
+  - exfalso. revert H1. cbn [step]. rewrite Eg. unfold sum_on. rewrite Hzh, Et. discriminate.
 Qed.
 
 (* ------------------------------------------------------------------ reachable states: containers are well shaped
@@ -674,7 +730,7 @@ Proof.
   intros Hw Hok Hs.
   assert (SK : forall r, skipped st = Some r -> state_wf (fst r)) by (intros r E; inversion E; exact Hw).
   destruct o as [|dst t' x|dst x|dst t' tensor sh data|dst tensor sh data|dst assign code c a|dst mode code a b|dst a b
-                 |a elem|t'|a|t']; cbn [step] in Hs.
+                 |a elem|t'|a|t'|dst rs]; cbn [step] in Hs.
   - inversion Hs; subst. exact Hw.
   - eapply finish_wf; [exact Hw| |exact Hs]. intros tp tp' o. apply as_rec_wf.
   - inversion Hs; subst. apply put_wf; [exact Hw|exact I].
@@ -734,6 +790,14 @@ Proof.
   - destruct (tape_of st t') as [tp|]; [|discriminate].
     destruct (reset_all ops tp t' (regs st)) as [[tp' os] idx] eqn:Er. inversion Hs; subst.
     unfold state_wf. cbn [regs]. eapply reset_all_wf; eauto.
+  - destruct (get_recs st rs) as [xs|]; [|apply (SK _ Hs)].
+    assert (W : forall t tp, state_wf (set_tape st t tp)) by (intros t tp; exact Hw).
+    unfold sum_on in Hs. destruct (sum_hist xs) as [t0|].
+    + destruct (tape_of st t0) as [tp|]; [|discriminate].
+      destruct (sum_fold ops tp (rec_constant (nzero ops)) xs) as [tp' [z|e|]]; cbn [fst snd sum_finish] in Hs;
+        inversion Hs; subst; try apply W. apply put_wf; [apply W|exact I].
+    + destruct (sum_fold ops [] (rec_constant (nzero ops)) xs) as [tp' [z|e|]]; cbn [fst snd sum_finish] in Hs;
+        inversion Hs; subst; try exact Hw. apply put_wf; [exact Hw|exact I].
 Qed.
 
 Theorem run_wf : forall script (st : state) stf vs, state_wf st -> Forall op_ok script ->
